@@ -64,9 +64,15 @@ func TestVerifReplayGetLoginDestination(t *testing.T) {
 	}
 	req.Header.Set("Content-Type", "application/x-www-form-urlencoded")
 	got := getLoginDestination(req)
-	t.Logf("login_destination=%q -> getLoginDestination=%q", dest, got)
+	// what the browser receives: the Location header net/http.Redirect emits for that target
+	rr := httptest.NewRecorder()
+	http.Redirect(rr, req, got, http.StatusFound)
+	loc := rr.Header().Get("Location")
+	t.Logf("login_destination=%q -> getLoginDestination=%q Location=%q", dest, got, loc)
 	if !verifSafeDest(got) {
 		t.Logf("REPLAY-CONFIRMED: redirect target %q is not a same-origin path", got)
+	} else if !verifSafeDest(loc) {
+		t.Logf("REPLAY-CONFIRMED: emitted Location %q is not a same-origin path", loc)
 	} else {
 		t.Logf("REPLAY-NOT-REPRODUCED")
 	}
